@@ -111,6 +111,8 @@ where
             }
           }
           s_error.error(e);
+          // a terminal ends the subscriber: release its remaining callbacks
+          s_error.unsubscribe();
         },
         move || {
           {
@@ -121,6 +123,7 @@ where
             }
           }
           s_complete.complete();
+          s_complete.unsubscribe();
         },
       ));
 
@@ -173,6 +176,8 @@ where
         if let Some(sbsc) = &*sbsc.read().unwrap() {
           sbsc.unsubscribe();
         }
+        // also after a terminal: this releases its remaining callbacks
+        s.unsubscribe();
       }
     })
   }
